@@ -1,22 +1,15 @@
-"""Which parts make up the check of each property."""
-import vcheck as V
+"""Which parts make up the check of each property: every lib/eng_*.py module contributes
+PROPS = {"Cxx": function(ctx)} and MANIFEST = {"Cxx": {...manifest fields...}}."""
+import glob
+import importlib
+import os
 
-
-def broker_prop(ctx):
-    import eng_broker
-    V.check_properties_file(ctx, "Properties_%s.v" % ctx.prop)
-    eng_broker.run(ctx)
-
-
-PROPS = {
-    "C05": broker_prop,
-    "C06": broker_prop,
-    "C07": broker_prop,
-    "C20": broker_prop,
-}
-
-ASSUMPTIONS = {
-    "broker": ["node Process/Close/Reopen outcomes are oracle parameters of the model (universally quantified in the theorems)",
-               "sync.Map Store/Delete/Load/Range contract; Go mutex semantics",
-               "the harness observes internal reference counts only as the boolean 'in use' through the verif-tagged snapshot hook"],
-}
+PROPS = {}
+MANIFEST = {}
+ENGINES = []
+for _f in sorted(glob.glob(os.path.join(os.path.dirname(os.path.abspath(__file__)), "eng_*.py"))):
+    _m = importlib.import_module(os.path.basename(_f)[:-3])
+    PROPS.update(getattr(_m, "PROPS", {}))
+    MANIFEST.update(getattr(_m, "MANIFEST", {}))
+    if hasattr(_m, "ENGINE"):
+        ENGINES.append(_m.ENGINE)
